@@ -398,6 +398,13 @@ let run_cw (c : case) =
     pr "STATS %d %d %d %d\n" (int_of_n a.M.cw_num_states) (List.length a.M.cw_states)
       (int_of_n (M.cw_heap_bytes (n_of_int osz) a)) osz;
     if String.contains c.ops 'T' then cw_table a c.kind (List.map (List.map int_of_n) cps);
+    (if c.kind = 0 || c.entry = "new" || c.entry = "with_values" then
+       match spec_pvs c with
+       | None -> ()
+       | Some pvs ->
+         let cpvs = List.map (fun (p, v) -> ((match M.chars_of p with Some cs -> cs | None -> p), v)) pvs in
+         pr "MCCERT %d\n" (if M.cw_cert_ok zeqb a cpvs then 1 else 0));
+    pr "MSAFE %d\n" (if M.cw_safe_b a then 1 else 0);
     if String.contains c.ops 'S' then cw_searches a c "";
     if String.contains c.ops 'K' then kindchk c.kind;
     if String.contains c.ops 'R' then begin
@@ -467,6 +474,20 @@ let cert_image (c : case) =
             let ok = M.bw_cert_ok zeqb a pvs in
             pr "ISTATS %d\n" (if M.bw_stats_ok a pvs then 1 else 0);
             pr "ICERT %d %d\n" (if ok then 1 else 0) (int_of_n (M.bw_cert_count a pvs)))
+    | _ -> pr "ISAFE 0\nICERT 0 0 undecodable\n"
+  end
+  else if c.var = "cw" && c.imghex <> "" then begin
+    let sv = M.vt_serializable (vtype_of c.vt) in
+    match M.cw_deserialize sv (nlist (unhex_str c.imghex)) with
+    | M.Ok (a, rest) ->
+      pr "ISAFE %d\n" (if M.cw_safe_b a then 1 else 0);
+      if rest <> [] then pr "ICERT 0 0 trailing\n"
+      else if a.M.cw_kind <> M.Standard then pr "ICERT - 0 notstandard\n"
+      else (match spec_pvs c with
+          | None -> pr "ICERT - 0 nopvs\n"
+          | Some pvs ->
+            let cpvs = List.map (fun (p, v) -> ((match M.chars_of p with Some cs -> cs | None -> p), v)) pvs in
+            pr "ICERT %d 0 cw\n" (if M.cw_cert_ok zeqb a cpvs then 1 else 0))
     | _ -> pr "ISAFE 0\nICERT 0 0 undecodable\n"
   end
 
